@@ -104,10 +104,10 @@ def run(ctx):
         elif kind == "similar-labels":
             # previous versions whose labels differ only in leading zeros / digit grouping, each with its own change of the same steps
             labels = [["v1", "v01", "v001"], ["v1_2", "v1_02", "v01_2", "v1_002"], ["r2", "r02", "r10", "r010"], ["a1b2", "a01b2", "a1b02"]][i % 4]
-            types = ["int", "long", "float", "double", "uint", "ulong", "short"]
+            types = ["int", "long", "float", "uint", "ulong", "int16", "uint8"]
             proto = "Steps: !protocol\n  sequence:\n    a: %s\n    b: %s\n    s: !stream\n      items: %s\nRec: !record\n  fields:\n    f: %s\nUses: !protocol\n  sequence:\n    r: Rec\n"
             files = {"new/_package.yml": "namespace: Lbl\nversions:\n" + "".join("  %s: ../%s\n" % (l, l) for l in labels) +
-                     "cpp:\n  sourcesOutputDir: ../out/cpp\n  generateCMakeLists: false\npython:\n  outputDir: ../out/python\n", "new/m.yml": proto % ("complexdouble", "complexdouble", "complexdouble", "complexdouble")}
+                     "cpp:\n  sourcesOutputDir: ../out/cpp\n  generateCMakeLists: false\npython:\n  outputDir: ../out/python\n", "new/m.yml": proto % ("double", "double", "double", "double")}
             for j, l in enumerate(labels):
                 files["%s/_package.yml" % l] = "namespace: Lbl\n"
                 files["%s/m.yml" % l] = proto % (types[j % 7], types[(j + 1) % 7], types[(j + 2) % 7], types[(j + 3) % 7])
@@ -146,6 +146,8 @@ def run(ctx):
                     shutil.rmtree(os.path.join(base, c), ignore_errors=True)
         first = obs[0]
         ok = True
+        if kind == "similar-labels" and first["rc"] != 0:
+            raise Inconclusive("the similar-labels package is rejected: %s" % first["stderr"][-300:])
         site = cli.panic_site(first["stderr"])
         if site:
             ctx.violation("panic@%s" % site, "%s %s: crash" % (kind, i), {"case_dir": base, "stderr": first["stderr"][-2000:]})
